@@ -70,12 +70,12 @@ AGGREGATORS = {
                       if curr is not None
                       else (1, new),
                       lambda value: value[1] / value[0] if value is not None else None,
-                      None,
+                      'number',
                       False),
     'median': Aggregator(lambda curr, new:
                          curr + [new] if curr is not None else [new],
                          median,
-                         None,
+                         'number',
                          True),
     'max': Aggregator(lambda curr, new:
                       max(new, curr) if curr is not None else new,
